@@ -462,7 +462,7 @@ def check_lt(repo, rep):
     cls = repo.cls(q)
     f = cls.methods.get('__lt__')
     if f is None:
-      rep.violation('R4/order', q, '__lt__ missing', '%s defines no __lt__: designs cannot be ordered by score' % q, cls.loc())
+      rep.absent_in_class(cls, 'R4/order', q, '__lt__ missing', '%s defines no __lt__: designs cannot be ordered by score' % q, cls.loc())
       continue
     rep.fn(f)
     n += 1
@@ -545,8 +545,11 @@ def check_searches(repo, rep):
         for call in au.calls_in(e):
           if isinstance(call.func, ast.Attribute) and call.func.attr == 'push':
             pushes.append((n, call))
-    rep.check(len(allocs) >= 1, 'R4/search', '%s allocates its result heap' % name, f.qualname, 'no HeapDict(...) allocation',
-              '%s does not allocate a result heap of its own' % name, f.loc())
+    if allocs:
+      rep.ok('R4/search', '%s allocates its result heap' % name, loc=f.loc())
+    else:
+      rep.absent(f, 'R4/search', f.qualname, 'no HeapDict(...) allocation', '%s does not allocate a result heap of its own' % name, f.loc(),
+                 subject='%s allocates its result heap' % name)
     for a in allocs:
       n_sites += 1
       call = a.ast.value
@@ -570,6 +573,11 @@ def check_searches(repo, rep):
     for s in stored:
       v = s.ast.value
       d = rd.single_def(s, v.id) if isinstance(v, ast.Name) else None
+      if isinstance(v, ast.Call) and any(c_ is v for c_, _ in au.delegations(repo, f)) or \
+          (isinstance(v, ast.Call) and isinstance(v.func, ast.Attribute) and isinstance(v.func.value, ast.Name)
+           and any(isinstance(c_, ast.Call) and (lambda dd: dd is not None and dd.value is c_)(rd.single_def(s, v.func.value.id)) for c_, _ in au.delegations(repo, f))):
+        rep.undecided('R4/search', '%s stores its own heap as the result' % name, 'the stored value `%s` is produced by repository code that is not followed' % norm(v)[:60], f.loc(s.ast))
+        continue
       rep.check(d is not None and any(d.node is a for a in allocs), 'R4/search', '%s stores its own heap as the result' % name,
                 f.qualname, norm(s.ast), '%s stores %s as result heap, not the heap it filled' % (name, norm(v)), f.loc(s.ast))
     if not stored:
